@@ -112,7 +112,7 @@ class ServiceDecorator(Decorator):
                 await self.dm.handle_exception(exc)
                 return None
 
-        task = Function.create_task(do_service_call(self.dm.eval_func, ast_ctx, func_args))
+        task = Function.create_task(do_service_call(self.dm.eval_func, ast_ctx, func_args), ast_ctx=ast_ctx)
         await task
         return task.result()
 
